@@ -5,8 +5,8 @@ D="$1"; PROP="$2"; TIER="${3:-quick}"
 cd /repo || exit 9
 if ! git diff --quiet; then echo "repo dirty"; exit 9; fi
 git apply "$D/patch.diff" || { echo "patch does not apply"; exit 9; }
-cd /verif && ./vcheck run "$PROP" --tier "$TIER" > /tmp/seedrun.$$ 2>&1; rc=$?
+cp -f /verif/evidence/$PROP.json /tmp/evid.$$.bak 2>/dev/null; cd /verif && ./vcheck run "$PROP" --tier "$TIER" > /tmp/seedrun.$$ 2>&1; rc=$?
 grep -v "^  " /tmp/seedrun.$$ | head -8; grep "^  sig" /tmp/seedrun.$$ | head -5; rm -f /tmp/seedrun.$$
-git -C /repo checkout -- .
+git -C /repo checkout -- .; if [ -f /tmp/evid.$$.bak ]; then mv -f /tmp/evid.$$.bak /verif/evidence/$PROP.json; else rm -f /verif/evidence/$PROP.json; fi
 echo "seed_run rc=$rc"
 exit $rc
